@@ -71,6 +71,10 @@ func cliQueries(q string, variant int) cliQuery {
 	case "empty":
 		return cliQuery{expr: "//nosuch"}
 	case "num":
+		if variant%2 == 1 {
+			// the value of a -v binding reaches the query byte for byte (leading / trailing blanks included)
+			return cliQuery{expr: "string-length($pad) + count(//a)", args: []string{"-v", "pad=  x y "}, opts: []xsel.ContextApply{xsel.WithVariable("pad", xsel.String("  x y "))}}
+		}
 		return cliQuery{expr: "count(//a)"}
 	}
 	switch variant % 7 {
